@@ -10,8 +10,19 @@ import ClockBound.Rs.EmbedShm
 namespace ClockBound.Rs
 open ClockBound ClockBound.Rs ClockBound.Rs.DictShm
 
-attribute [rs_eval] DictShm.ext DictShm.path DictShm.deref DictShm.method DictShm.call
+attribute [rs_eval] DictShm.path DictShm.deref DictShm.method DictShm.call
   DictShm.ptrA16 DictShm.refA16 DictShm.ptrCeb DictShm.ordering DictShm.asU16 DictShm.asU64 bitInt
+
+/-! the dictionary stays folded (`DictShm.ext`); its fields -/
+@[rs_eval] theorem ext_call : DictShm.ext.call = DictShm.call := rfl
+@[rs_eval] theorem ext_method : DictShm.ext.method = DictShm.method := rfl
+@[rs_eval] theorem ext_path : DictShm.ext.path = DictShm.path := rfl
+@[rs_eval] theorem ext_deref : DictShm.ext.deref = DictShm.deref := rfl
+@[rs_eval] theorem ext_litFallback : DictShm.ext.litFallback = some .i32 := rfl
+@[rs_eval] theorem ext_errFrom : DictShm.ext.errFrom = Ext.none.errFrom := rfl
+@[rs_eval] theorem ext_macroCall : DictShm.ext.macroCall = Ext.none.macroCall := rfl
+@[rs_eval] theorem ext_fieldOf : DictShm.ext.fieldOf = Ext.none.fieldOf := rfl
+@[rs_eval] theorem ext_cast : DictShm.ext.cast = Ext.none.cast := rfl
 
 /-- an operand of a known integer type is not retyped -/
 @[rs_eval] theorem litFallback_int_l (fb : Option IntTy) (t : IntTy) (x : Int) (b : Value) (h : t ≠ .infer) :
@@ -20,5 +31,14 @@ attribute [rs_eval] DictShm.ext DictShm.path DictShm.deref DictShm.method DictSh
 @[rs_eval] theorem litFallback_int_r (fb : Option IntTy) (a : Value) (t : IntTy) (y : Int) (h : t ≠ .infer) :
     litFallback fb a (.int t y) = (a, .int t y) := by
   unfold litFallback; split <;> simp_all
+
+/-- setting the lowest bit: the next odd number unless the number is odd already (`gen | 0x0001`) -/
+theorem lor_one (g : Nat) : g ||| 1 = if g % 2 = 0 then g + 1 else g := by
+  have h1 : (g ||| 1) / 2 = g / 2 := by rw [Nat.or_div_two]; simp
+  have h2 : (g ||| 1) % 2 = 1 := by rw [Nat.or_mod_two_eq_one]; simp
+  split <;> omega
+
+/-- clearing all bits but the lowest (`gen & 0x0001`) -/
+theorem land_one (g : Nat) : g &&& 1 = g % 2 := Nat.and_one_is_mod g
 
 end ClockBound.Rs
